@@ -2,8 +2,11 @@
     Mirrors: src/compaction/stream.rs (CompactionStream::next, drain_key).
     The Rust iterator's inner [drain_key] loop (skip the following entries with the
     head's user key, reporting each to the drop callback) is written as a mode of the
-    same structural recursion ([dr = Some k]: "draining k"), so no fuel is needed and
-    the function is total by construction.  Result: (emitted entries, drop-callback log). *)
+    same structural recursion ([dr = Drain k]: "draining k"), so no fuel is needed and
+    the function is total by construction.  Result: (emitted entries, drop-callback log).
+    This is the stream AFTER the repair of finding F3 (weak tombstone + value pair: only
+    the pair is dropped, not the whole tail of the key); [cstream_old] keeps the shipped
+    3.1.9 behaviour for the refutation theorem. *)
 From LsmV Require Export Model.Entry.
 Open Scope N_scope.
 
@@ -23,34 +26,90 @@ Definition apply_filter (flt : entry -> verdict) (e : entry) : option entry * li
        | Drop => (None, [e])
        end.
 
-Definition draining (dr : option key) (e : entry) : bool :=
-  match dr with Some k => key_eqb (ukey e) k | None => false end.
+(** what the loop does with the entries that follow the current head:
+    [Drain k]  = inside [drain_key k]: every following entry with user key k is dropped and
+                 reported to the drop callback;
+    [DropNext] = the weak-tombstone/value pair rule: exactly the next entry (the value
+                 directly below the weak tombstone) is dropped and reported, then the loop
+                 goes on normally (an older version of the key becomes a head again). *)
+Inductive dmode := NoDrain | Drain (k : key) | DropNext.
+
+(** [evict]: drain_key collects every following version of the key when tombstones are
+    evicted (last level); otherwise it STOPS at a weak tombstone, which then becomes a
+    stream head again (it may still have to cancel or shadow a value in a deeper level). *)
+Definition draining (evict : bool) (dr : dmode) (e : entry) : bool :=
+  match dr with
+  | Drain k => key_eqb (ukey e) k && (evict || negb (is_weak_tomb e))
+  | DropNext => true
+  | NoDrain => false
+  end.
+
+Definition after_drop (dr : dmode) : dmode :=
+  match dr with DropNext => NoDrain | d => d end.
 
 Fixpoint cstream (W : N) (evict : bool) (flt : entry -> verdict)
-         (dr : option key) (l : list entry) : list entry * list entry :=
+         (dr : dmode) (l : list entry) : list entry * list entry :=
   match l with
   | [] => ([], [])
   | e :: rest =>
-      if draining dr e then
-        let '(o, d) := cstream W evict flt dr rest in (o, e :: d)
+      if draining evict dr e then
+        let '(o, d) := cstream W evict flt (after_drop dr) rest in (o, e :: d)
       else
         let '(hd, lg) := apply_filter flt e in
         match hd with
-        | None => let '(o, d) := cstream W evict flt None rest in (o, lg ++ d)
+        | None => let '(o, d) := cstream W evict flt NoDrain rest in (o, lg ++ d)
         | Some head =>
             match rest with
             | [] => if is_tomb head && evict then ([], lg) else ([head], lg)
             | peeked :: _ =>
                 if key_ltb (ukey head) (ukey peeked) then
-                  let '(o, d) := cstream W evict flt None rest in
+                  let '(o, d) := cstream W evict flt NoDrain rest in
                   if is_tomb head && evict then (o, lg ++ d) else (head :: o, lg ++ d)
                 else if seq peeked <? W then
-                  let '(o, d) := cstream W evict flt (Some (ukey head)) rest in
+                  if is_strong_tomb head && evict then
+                    let '(o, d) := cstream W evict flt (Drain (ukey head)) rest in (o, lg ++ d)
+                  else if is_value peeked && is_weak_tomb head then
+                    (* fix 'weak tombstone cancels exactly one value': only the pair goes *)
+                    let '(o, d) := cstream W evict flt DropNext rest in (o, lg ++ d)
+                  else
+                    let '(o, d) := cstream W evict flt (Drain (ukey head)) rest in
+                    (head :: o, lg ++ d)
+                else
+                  let '(o, d) := cstream W evict flt NoDrain rest in (head :: o, lg ++ d)
+            end
+        end
+  end.
+
+(** The stream as shipped in 3.1.9 (before the repair of F3): in the weak-pair case the
+    whole tail of the key was drained. Kept only for [cstream_old_resurrects] (Proofs). *)
+Definition draining_old (dr : option key) (e : entry) : bool :=
+  match dr with Some k => key_eqb (ukey e) k | None => false end.
+
+Fixpoint cstream_old (W : N) (evict : bool) (flt : entry -> verdict)
+         (dr : option key) (l : list entry) : list entry * list entry :=
+  match l with
+  | [] => ([], [])
+  | e :: rest =>
+      if draining_old dr e then
+        let '(o, d) := cstream_old W evict flt dr rest in (o, e :: d)
+      else
+        let '(hd, lg) := apply_filter flt e in
+        match hd with
+        | None => let '(o, d) := cstream_old W evict flt None rest in (o, lg ++ d)
+        | Some head =>
+            match rest with
+            | [] => if is_tomb head && evict then ([], lg) else ([head], lg)
+            | peeked :: _ =>
+                if key_ltb (ukey head) (ukey peeked) then
+                  let '(o, d) := cstream_old W evict flt None rest in
+                  if is_tomb head && evict then (o, lg ++ d) else (head :: o, lg ++ d)
+                else if seq peeked <? W then
+                  let '(o, d) := cstream_old W evict flt (Some (ukey head)) rest in
                   if is_strong_tomb head && evict then (o, lg ++ d)
                   else if is_value peeked && is_weak_tomb head then (o, lg ++ d)
                   else (head :: o, lg ++ d)
                 else
-                  let '(o, d) := cstream W evict flt None rest in (head :: o, lg ++ d)
+                  let '(o, d) := cstream_old W evict flt None rest in (head :: o, lg ++ d)
             end
         end
   end.
@@ -59,7 +118,7 @@ Definition no_filter (e : entry) : verdict := Keep.
 
 (** entry point: CompactionStream::new(iter, W).evict_tombstones(evict).with_filter(flt) *)
 Definition run_stream (W : N) (evict : bool) (flt : entry -> verdict) (l : list entry) :=
-  cstream W evict flt None l.
+  cstream W evict flt NoDrain l.
 
 (** merge of several sorted sources into one InternalKey-sorted stream (Merger);
     insertion-based, stable: earlier sources win ties *)
